@@ -886,12 +886,13 @@ def c07_calculate(ctx, l, sig, av, me, ob):
         extra = cl.pc[len(l.pc):]
         pre = z3.And(*extra) if extra else z3.BoolVal(True)
         r = cl.value
-        if r.variant == 'None':
-            ob('calculate-presence', z3.Implies(pre, z3.Not(expect_some)), 'calculate() returns None although velocity and rate are present')
+        is_some = mk_bool(opt_discr(r) == z3.BitVecVal(1, 64))
+        ob('calculate-presence', z3.Implies(pre, to_z3bool(is_some) == expect_some),
+           'calculate() returns a velocity although a field is 0 (no information) / the subtype is not ground speed, or withholds one although velocity and rate are present')
+        if is_some is False or not r.f:
             continue
-        ob('calculate-presence', z3.Implies(pre, expect_some), 'calculate() returns a velocity although a field is 0 (no information) or the subtype is not ground speed')
         heading, speed, vrate = r.f[0].f
-        both = z3.And(pre, expect_some)
+        both = z3.And(pre, expect_some, to_z3bool(is_some))
         ob('calculate-vrate', z3.Implies(both, to_bv(vrate) == want_vrate), 'vertical rate differs from (raw-1)*64 with sign')
         # heading = wrap(atan2(E, N) * 360/2pi) as f32, speed = hypot(E, N): locate the uninterpreted applications in
         # the code's terms, compare their arguments with the reference components, then compare the shape around them
